@@ -104,6 +104,7 @@ def run(ctx, rep):
             dL = strip_trunc(subst(sub(L1, L0), m))
             dE = strip_trunc(subst(sub(seqlen(s.E_post), seqlen(s.E_pre)), m))
             dE = _apply_elem_lengths(s.I, dE, proven)
+            dL = _apply_elem_lengths(s.I, dL, proven)
             dL, dE = raw_equiv(dL), raw_equiv(dE)
             # induction hypothesis in full form (needed where an assertion on the length selects the reachable states)
             facts_ = [c for c, _ in s.facts] + [cmp('eq', L0, strip_trunc(seqlen(s.E_pre)))]
@@ -172,6 +173,8 @@ def _apply_elem_lengths(I, t, proven):
         for ty, fld in proven:
             if nm.endswith('.' + fld):
                 base = nm[:-len(fld) - 1]
+                st_ = I.type_of_path(base)
+                if st_ is not None and st_ != ty: continue       # the atom belongs to an object of another type
                 v = I.sym_value(ty, base)
                 if isinstance(v, StructV) and v.fields.get(fld) == a:
                     segs = emit_value(I, v, ty)
